@@ -677,6 +677,20 @@ def run_sched(c, P):
         if len(pongs) != 1:
             c.fail('C18: %d Pongs written for one Ping' % len(pongs))
         cls.add('stalled' if any(s_[2] == 'blocked:peer-not-reading' for s_ in sched.switches) else 'not-stalled')
+    if 'C14' in tags:
+        # the Ping handed to the loop thread is answered by exactly one Pong with the same payload, whatever the other threads were doing
+        # at that moment (holding the write lock, in the middle of a sendall, ...)
+        pongs = [f for f in frames if f['opcode'] == 10]
+        pings = [m for n_ in sent for m in sent[n_] if m[0] == 10 and state.get('loop_events') is not None]
+        if state.get('loop_events') is not None and 'ping' not in state['loop_events']:
+            c.fail('C14: the Ping was not delivered (loop events %s)' % state['loop_events'])
+        if len(pongs) != len(pings):
+            c.fail('C14: %d Pongs written for %d Pings while another thread was sending (loop events %s)'
+                   % (len(pongs), len(pings), state.get('loop_events')), sig='C14: Ping not answered exactly once (threads)')
+        for f, m in zip(pongs, pings):
+            c.prove(eq_items(f['payload'], m[1]),
+                    'C14: Pong payload differs from the Ping payload (threads)')
+        cls.add('ping-answered')
     if 'C19' in tags:
         # nothing but the CONNECT request may be written to the proxy socket until its answer has been read completely --
         # whichever thread tries
